@@ -4,14 +4,20 @@ func init() {
 	register(&Prop{
 		ID: "C01", Title: "serix, JSON and stream codecs round-trip every encodable value", Level: "exploration",
 		Subs: []Sub{
-			{Pkg: "codec", Harness: "stream", Config: "nochunk", Weight: 2, Note: "chunking-free reader (bytes.Reader semantics / stream.ByteReader): baseline without any fault"},
-			{Pkg: "codec", Harness: "stream", Config: "chunk", Weight: 5, Note: "simulated io.Reader: 1-byte, short, zero-length reads, n>0 with io.EOF"},
-			{Pkg: "codec", Harness: "maporder", Weight: 3, Note: "two Encode / JSONEncode calls per run under different simulator-chosen map iteration orders"},
+			{Pkg: "codec", Harness: "stream", Config: "nochunk", Weight: 2, Note: "fault-free baseline: bytes.Reader semantics or the package's own ByteReader; also the ByteBuffer Write/Seek model check"},
+			{Pkg: "codec", Harness: "stream", Config: "chunk", Weight: 5, Note: "simulated io.Reader: every Read is a decision (full, 1-byte, short, zero-length then data, n>0 with io.EOF)"},
+			{Pkg: "codec", Harness: "maporder", Weight: 3, Note: "two Encode and two JSONEncode calls per run under different simulator-chosen map iteration orders; decode / JSON round trip as workload"},
 		},
 		QuickS: 30, ThoroughS: 600,
-		Rule:   "TODO",
-		Real:   []string{"TODO"},
-		Stubs:  commonStubs,
-		Assume: []string{"TODO"},
+		Rule: "stream: each run picks ONE helper family (Read[T] for the 12 scalar/array types, ReadBytes, ReadBytesWithSize x4 prefix widths, ReadObject, ReadObjectWithSize x3, ReadCollection x4 and PeekSize+ReadCollection x4 with Read[uint16|uint64] elements, ReadObjectFromReader, or the ByteBuffer Write/Seek model) and 1-3 values; byte payloads and objects are serix encodings of values drawn from a 14-type zoo (scalars incl. floats/NaN, strings and byte slices with uint8/16/32 prefixes and bounds, byte arrays with and without type code, big.Int, time.Time, embedded/inlined structs, optional pointers and interfaces, interfaces with uint8 and uint32 type codes, slices with array rules (must-occur, at-most-one-of-each-type, lexical order, no duplicates, auto-sort), maps incl. nested ones, a custom Serializable, an array of non-byte elements), written with the real Write* helpers into a stream.ByteBuffer, read back through the simulated reader and decoded again; oracle per item: no error, value equal (canonicalising comparer), stream fully consumed. In configuration chunk every Read call draws one of: full read / 1 byte / short read / zero-length read (at most 2 in a row) / final chunk together with io.EOF; counted as faults short-read, zero-read, eof-with-data. maporder: one zoo value (3 of 4 runs: a type with maps), validation on/off, Encode twice and JSONEncode twice in the same run - the rewritten serix iterates Go maps (range and reflect MapRange/MapKeys) in an order that is a recorded decision, so the calls see different orders; oracle: byte-identical output; then Decode / JSONDecode and comparison with the expected value as workload. distinct = distinct (script, chunking schedule, event log) hash; every run is non-trivial (each draws a value)",
+		Real: []string{"serializer/stream (read.go, write.go, byte_buffer.go, byte_reader.go, offset.go)", "serializer/serix Encode/Decode/MapEncode/JSONEncode/JSONDecode with one API instance, 16 registered type settings and 2 interface registries", "serializer.Serializer/Deserializer underneath", "ds/orderedmap (registries)"},
+		Stubs: append([]string{"io.Reader / io.ReadSeeker under the Read* helpers (simio: decision-driven chunking; bytes.Reader semantics in configuration nochunk)", "Go map iteration order inside serix (simrt.MapKeys / ReflectMapRange: recorded decision)"}, commonStubs...),
+		Assume: []string{
+			"restricted claim: what is decided is (a) stream helper pairs under all generated read-chunkings and (b) independence of Encode/JSONEncode output from map iteration order; the serix/JSON round trip of a value as such is a pure function of the value - it runs here as workload on generated values (sampled, not exhaustive) and its verdict does not depend on any fault or schedule",
+			"the reader only splits reads and never reorders, drops or invents bytes; at most two consecutive zero-length reads",
+			"values are small (collections of 0-3 elements, strings/byte slices of 0-6 bytes, some 200-320 byte payloads); the JSON form is exercised for the zoo types it can express (no non-string map keys)",
+			"only the first item of a stream uses an 8-byte length prefix (a misaligned 8-byte prefix makes stream.ReadBytes abort the process, see C02)",
+			"not covered: ds/reactive Set codec; SerializableOrderedMap only under C02",
+		},
 	})
 }
